@@ -81,6 +81,8 @@ def world_hooks(p, events: list) -> Dict[str, object]:
             return args[0]  # iterating a table is iterating its keys
         if dotted == "importlib.import_module" and len(args) == 1:
             return AStruct("py-module", name=args[0])
+        if dotted == "collections.ChainMap" and not args and not kwargs:
+            return {}  # an empty chain of mappings is an empty table (`new_child` on it: see the attribute hook)
         if dotted in ("pathlib.Path", "pathlib.PurePath", "os.fspath", "os.path.dirname", "os.path.abspath") and len(args) == 1:
             return args[0] if isinstance(args[0], AStruct) and args[0].kind == "path" else (
                 AStruct("path", of=args[0]) if short in ("Path", "PurePath") else args[0])
@@ -638,8 +640,45 @@ def k22_combined(ctx, rule: str):
     if not isinstance(add, FuncInfo):
         raise AnalysisError("anchor vanished: %s.add_registry" % comb.qualname)
 
-    def self_obj():
-        return AObj(comb, {"_data": AMap("TABLE")}, name="combined")
+    # where the registry keeps its table: the empty dict its constructor makes, on the object itself (`self._data = {}`) or on a
+    # small object of the code base the constructor hangs on it (`self._union = Union()`, whose `index` is the dict)
+    table_path: List[str] = []
+
+    def find_empty_dicts(obj, prefix=(), depth=2):
+        found = []
+        for an, av in sorted(obj.attrs.items()):
+            if isinstance(av, dict) and not av:
+                found.append(prefix + (an,))
+            elif isinstance(av, AObj) and isinstance(av.cls, ClassInfo) and depth > 0:
+                found += find_empty_dicts(av, prefix + (an,), depth - 1)
+        return found
+
+    def holder_and_slot(obj, path):
+        for an in path[:-1]:
+            obj = obj.attrs[an]
+        return obj, path[-1]
+
+    def table_of(obj):
+        h, slot = holder_and_slot(obj, table_path)
+        return h.attrs.get(slot)
+
+    def self_obj(I=None, base="TABLE", name="combined"):
+        init = p.class_attr_def(comb, "__init__")[1]
+        if not isinstance(init, FuncInfo):
+            raise AnalysisError("anchor vanished: %s.__init__" % comb.qualname)
+        I2 = I if I is not None else Interp(p, __import__("sa.absint", fromlist=["Path"]).Path(__import__("sa.absdom", fromlist=["Constraints"]).Constraints([]), []), hooks=dict(hooks))
+        obj = AObj(comb, {}, name=name)
+        n0 = len(I2.path.effects)
+        I2.call_function(init, [obj], {})
+        del I2.path.effects[n0:]
+        found = find_empty_dicts(obj)
+        if len(found) != 1:
+            raise AnalysisError("%s: the constructor of the combined registry does not make exactly one empty table (found %r)" % (init.where(), found))
+        if not table_path:
+            table_path.extend(found[0])
+        h, slot = holder_and_slot(obj, list(found[0]))
+        h.attrs[slot] = AMap(base)
+        return obj
 
     ITEM_ID = Term("id", Term("item"))
 
@@ -649,7 +688,7 @@ def k22_combined(ctx, rule: str):
         if o.kind != "return":
             return [(rule + ".combined-first-wins", name, False, "adding a member ends with %r" % (o,))]
         loops = [e for e in o.path.effects if e[0] == "loop"]
-        out.append((rule + ".combined-union", name, any(e[1] == "items" for e in loops) and not any(e[0] == "break" for e in o.path.effects),
+        out.append((rule + ".combined-union", name, any(e[1] == "items" for e in loops) and not any(e[0] in ("break", "return-in-loop") for e in o.path.effects),
                     "add_registry must visit every item of the member: loops over %r" % ([e[1] for e in loops],)))
         shadow = [e for e in o.path.effects if e[0] == "map-shadow"]
         if shadow:
@@ -677,17 +716,17 @@ def k22_combined(ctx, rule: str):
         return out
 
     def run_add(I):
-        return (self_obj(), AStruct("member-registry")), {}
+        return (self_obj(I), AStruct("member-registry")), {}
 
     emit(ctx, run_paths(ctx, add, run_add, [], hooks=hooks, post=post_add), add.where())
 
     # ... and a member that is itself a combined registry (class invariant, by induction over the calls that built it:
     # every key of its table is the id of the item filed under it)
     def run_add_combined(I):
-        me = self_obj()
-        member = AObj(comb, {"_data": AMap("MEMBER")}, name="member")
-        I.member_table = member.attrs["_data"]
-        I.own_table = me.attrs["_data"]
+        me = self_obj(I)
+        member = self_obj(I, base="MEMBER", name="member")
+        I.member_table = table_of(member)
+        I.own_table = table_of(me)
         return (me, member), {}
 
     def post_add_combined(I, o):
@@ -695,7 +734,7 @@ def k22_combined(ctx, rule: str):
         if o.kind != "return":
             return [(rule + ".combined-first-wins", name, False, "adding a combined registry ends with %r" % (o,))]
         me = I.kernel_args[0]
-        now = me.attrs.get("_data")
+        now = table_of(me)
         out = []
         if now is not I.own_table:
             # the table was replaced
@@ -750,7 +789,7 @@ def k22_combined(ctx, rule: str):
                 e[0] in ("map-haskey", "contains") or "TABLE" in repr(e) for e in o.path.effects)
             return [(rule + ".combined-views", name, ok, "membership must be membership in the table: %r" % (o,))]
 
-        args = (lambda I, nm=nm: ((self_obj(),) + ((KEY,) if nm in ("__getitem__", "__contains__") else ()), {}))
+        args = (lambda I, nm=nm: ((self_obj(I),) + ((KEY,) if nm in ("__getitem__", "__contains__") else ()), {}))
         emit(ctx, run_paths(ctx, f_, args, [], hooks=hooks, post=post_view), f_.where())
     _, lsh = p.class_attr_def(comb, "__lshift__")
     if isinstance(lsh, FuncInfo):
@@ -765,6 +804,6 @@ def k22_combined(ctx, rule: str):
 
         h2 = dict(hooks)
         h2[add.qualname] = add_hook
-        emit(ctx, run_paths(ctx, lsh, lambda I: ((self_obj(), AStruct("member-registry")), {}), [], hooks=h2, post=post_lsh), lsh.where())
+        emit(ctx, run_paths(ctx, lsh, lambda I: ((self_obj(I), AStruct("member-registry")), {}), [], hooks=h2, post=post_lsh), lsh.where())
     r.floor(rule + ".combined-first-wins", 2)
     r.floor(rule + ".combined-union", 1)
